@@ -3,14 +3,15 @@ from .. import common, sched_gen, sched_impl, sched_suite
 
 PROPERTY = "C07"
 LEAN_MODULE = "IsobarV.Props.C07Runs"
-CHECKER_MODULES = ["IsobarV.Props.C07", "IsobarV.Sched.Solo", "IsobarV.Sched.Multi", "IsobarV.Props.C07Runs"]
+CHECKER_MODULES = ["IsobarV.Props.C07", "IsobarV.Sched.Solo", "IsobarV.Sched.Multi", "IsobarV.Props.C12Names", "IsobarV.Props.C07Runs"]
 THEOREMS = ["IsobarV.C07." + t for t in ("tick_phase_order", "phase_one_only_offs", "event_phase_in_order", "tick_decomposes",
     "event_phase_is_merge", "non_interference", "solo_run", "prepared_pointwise", "static_idempotent", "static_never_skips",
     "static_hold", "static_keeps", "static_rewind_keeps_hold", "static_rewind_restarts", "static_read_held", "globals_get_set",
     # whole runs (any number of ticks): lean/IsobarV/Props/C07Runs.lean
     "tick_is_merge", "run_is_merge", "alone_is_the_solo_timeline", "mergedCalls_append", "exW_noActions", "exW_posDur", "exW_faultless")] + \
     ["IsobarV.Sched." + t for t in ("tickTrack_solo", "phaseTracks_solo", "foldl_fireOne_tracks",
-                                    "soloTick_not_diverged", "soloTick_not_raised", "tickTL_frame")]
+                                    "soloTick_not_diverged", "soloTick_not_raised", "tickTL_frame")] + \
+    ["IsobarV.C12." + t for t in ("read_after_set_scalar", "read_unset_is_default", "read_other_untouched", "reads_walk_the_pattern")]  # Globals holding patterns
 RULE = ("(a) 1-6 tracks with separate streams on distinct channels, coinciding and non-coinciding events, random scheduling order, "
         "legato repeats (gate = 1): real Timeline vs Lean model on the ordered calls of every tick; (b) merge oracle on the "
         "implementation alone: the projection of the multi-track trace on each track's channel equals that track's solo run, and "
@@ -256,6 +257,7 @@ def static_cases(ctx):
         default = r.choice([None, None, -99, 0, False, "", 7])
         use_default_arg = default is not None or r.random() < 0.5
         pats = {}          # a pattern stored in a global is advanced one step per read
+        mlines, mgot, failed = ["gnew"], [], False        # the same history for the Lean model (Static/Model.lean, GEnv)
         for _ in range(r.randint(1, 14)):
             if r.random() < 0.45:
                 # values that compare equal but are not the same (1, 1.0, True; 0, False), patterns replacing scalars and
@@ -265,6 +267,9 @@ def static_cases(ctx):
                     vals_p = [r.randint(10, 99) for _ in range(r.randint(1, 3))]
                     v = iso.PSequence(list(vals_p))
                     pats[id(v)] = [vals_p, 0]
+                    mlines.append("gset %s q:%s" % (name, ",".join(repr(x) for x in vals_p)))
+                else:
+                    mlines.append("gset %s s:%s" % (name, repr(v).replace(" ", "_")))
                 if r.random() < 0.3:
                     Globals.set({"verif_" + name: v})
                 else:
@@ -276,6 +281,8 @@ def static_cases(ctx):
                     got = next(pg)
                 except Exception as e:
                     got = "raised " + type(e).__name__
+                mlines.append("gget %s" % name)
+                mgot.append(repr(got).replace(" ", "_"))
                 exp = model.get(name, default)
                 if id(exp) in pats:
                     st = pats[id(exp)]
@@ -284,8 +291,17 @@ def static_cases(ctx):
                 if got != exp or type(got) != type(exp):
                     ctx.violation("C07:globals", "PGlobals(%r, default=%r) read %r, expected %r (set so far: %r)" % (name, default, got, exp, model),
                                   {"suite": "globals", "name": name, "default": repr(default), "model": {k: repr(v) for k, v in model.items()}})
+                    failed = True
                     break
-        ctx.case(("globals", i, name, repr(default), tuple(sorted((k, repr(v)) for k, v in model.items()))), nontrivial=True, validated=False)
+        validated = False
+        if ctx.model_available and not failed:
+            out = ctx.driver("static", mlines)
+            mdl = [o for o, l in zip(out, mlines) if l.startswith("gget")]
+            mdl = [repr(default).replace(" ", "_") if o == "default" else o for o in mdl]
+            validated = True
+            if mdl != mgot:
+                ctx.disagreement("globals: PGlobals read %s, the model %s" % (mgot, mdl), {"suite": "globals", "lines": mlines, "default": repr(default)})
+        ctx.case(("globals", i, name, repr(default), tuple(sorted((k, repr(v)) for k, v in model.items()))), nontrivial=True, validated=validated)
         ctx.count("globals:default=%r" % (default,))
         for k in [k for k in list(Globals.dict.keys()) if str(k).startswith("verif_")]:
             del Globals.dict[k]
